@@ -136,7 +136,7 @@ func TestC31_Converge(t *testing.T) {
 			drops := 0
 			bothInitiated := false
 			for i := 0; i < nsteps; i++ {
-				op := rapid.SampledFrom([]string{"deliver", "deliver", "deliver", "dup", "drop", "advance", "tun", "rehandshake", "flush"}).Draw(rt, "op")
+				op := rapid.SampledFrom([]string{"deliver", "deliver", "deliver", "dup", "drop", "advance", "advance", "tun", "rehandshake", "flush", "lateDup", "lateDup"}).Draw(rt, "op")
 				switch op {
 				case "drop":
 					if drops >= 4 {
@@ -145,9 +145,22 @@ func TestC31_Converge(t *testing.T) {
 					drops++
 					nsApplyOp(rt, h, "drop")
 				case "advance":
-					d := rapid.SampledFrom([]time.Duration{time.Millisecond, 50 * time.Millisecond, 100 * time.Millisecond, 300 * time.Millisecond}).Draw(rt, "adv")
+					// mostly sub-interval steps; sometimes long enough for connection-manager checks (2 s) to
+					// run between deliveries
+					d := rapid.SampledFrom([]time.Duration{time.Millisecond, 50 * time.Millisecond, 100 * time.Millisecond, 300 * time.Millisecond, time.Second, 2100 * time.Millisecond}).Draw(rt, "adv")
 					h.note("advance %v", d)
 					s.advance(d)
+				case "lateDup":
+					// a delayed duplicate of anything sent earlier (the network may duplicate and delay)
+					s.mu.Lock()
+					hist := append([]*nsPacket{}, s.history...)
+					s.mu.Unlock()
+					if len(hist) == 0 {
+						continue
+					}
+					p := nsPickByClass(rt, hist, "lateDup")
+					h.note("late duplicate of %v", p)
+					nsDeliverUnauth(rt, h, p, p.From, p.To, "late-duplicate")
 				case "tun":
 					if rapid.Bool().Draw(rt, "dir") {
 						w.sendTagged(0, 1, addrB, 60)
